@@ -11,7 +11,7 @@ use refimpl as r;
 use refimpl::{Mode, MODES};
 use serde_json::json;
 
-const RULE: &str = "EVERY context length n in 0..=N (quick N=1100, thorough N=70000, crossing 256, 512 and 65536; quick additionally samples lengths around 65536, 131072 and 196608) x 4 modes x 3 sets: signing must be Ok iff n <= 255 (and then the signature verifies with the same context and fails with a context one byte longer/shorter); verification with an n-byte context, n > 255, must be false for signatures built to alias: the crate's own signature for (ctx' = C[..n-256], M' = C[n-256..] || M), and reference-made signatures over three literal aliasing models (length byte wrapped mod 256 with the full context; context truncated to 255 bytes; length byte saturated at 255 with the full context), in pure and pre-hash modes. Non-trivial = distinct (set, mode, n, probe kind) evaluations.";
+const RULE: &str = "EVERY context length n in 0..=N (quick N=1100, thorough N=70000, crossing 256, 512 and 65536; quick additionally samples lengths around 65536, 131072 and 196608) x 4 modes x 3 sets: signing must be Ok iff n <= 255 (and then the signature verifies with the same context and fails with a context one byte longer/shorter); verification with an n-byte context, n > 255, must be false for signatures built to alias: the crate's own signature for (ctx' = C[..n-256], M' = C[n-256..] || M), and reference-made signatures over three literal aliasing models (length byte wrapped mod 256 with the full context; context truncated to 255 bytes; length byte saturated at 255 with the full context), in pure and pre-hash modes. On 64-bit hosts also all-zero contexts of 2^24, 2^31, 2^32-1 .. 2^32+512 bytes (an untouched calloc buffer): signing must return Err and verification false in every mode, and the crate's own signature for (ctx = 0^r, M = 0^(2^32) || M0) must not verify for (ctx = 0^(2^32+r), M0). Non-trivial = distinct (set, mode, n, probe kind) evaluations.";
 
 pub fn run(ctx: &Ctx) -> StageOut {
     let mut acc = Acc::new();
@@ -184,5 +184,97 @@ fn run_set<S: PS>(ctx: &Ctx) -> Acc {
         acc.merge(a);
     }
     acc.maxi("max_ctx_len_enumerated", n_max as i64);
+    huge_contexts::<S>(ctx, &mut acc, &pk_b, &sk_b);
     acc
+}
+
+/// A zero-filled buffer that is never touched unless the code under test reads it (calloc hands out
+/// untouched zero pages, so 4 GiB cost nothing as long as the length check comes first).
+struct ZeroBuf {
+    ptr: *mut u8,
+    len: usize,
+}
+
+impl ZeroBuf {
+    fn new(len: usize) -> Option<ZeroBuf> {
+        let layout = std::alloc::Layout::from_size_align(len, 4096).ok()?;
+        // SAFETY: layout has a non-zero size; a null return is handled.
+        let ptr = unsafe { std::alloc::alloc_zeroed(layout) };
+        if ptr.is_null() { None } else { Some(ZeroBuf { ptr, len }) }
+    }
+    fn get(&self, n: usize) -> &[u8] {
+        assert!(n <= self.len);
+        // SAFETY: ptr points to len zero-initialised bytes owned by self and never written.
+        unsafe { std::slice::from_raw_parts(self.ptr, n) }
+    }
+}
+
+impl Drop for ZeroBuf {
+    fn drop(&mut self) {
+        // SAFETY: allocated in new() with this very layout.
+        unsafe { std::alloc::dealloc(self.ptr, std::alloc::Layout::from_size_align(self.len, 4096).unwrap()) }
+    }
+}
+
+/// Context lengths at and around 2^16 .. 2^32: a guard evaluated on a narrowed copy of the length
+/// (u8/u16/u32, or a signed 32-bit view) lets exactly these through.
+fn huge_contexts<S: PS>(ctx: &Ctx, acc: &mut Acc, pk_b: &[u8], sk_b: &[u8]) {
+    let p = S::p();
+    if usize::BITS < 64 {
+        return;
+    }
+    let top = (1usize << 32) + 600;
+    let Some(z) = ZeroBuf::new(top) else {
+        acc.inconclusive(format!("{}: cannot reserve a {top}-byte zero buffer for the huge-context probes", p.name));
+        return;
+    };
+    let (Ok(Ok(sk)), Ok(Ok(pk))) = (guarded(|| S::sk_from(sk_b)), guarded(|| S::pk_from(pk_b))) else { return };
+    let m = [0u8; 24];
+    let lens: [usize; 12] = [1 << 24, (1 << 24) + 7, 1 << 31, (1 << 31) + 100, (1 << 32) - 1, 1 << 32, (1 << 32) + 1, (1 << 32) + 100, (1 << 32) + 255, (1 << 32) + 256, (1 << 32) + 511, (1 << 32) + 512];
+    for &n in &lens {
+        let cx = z.get(n);
+        for mode in MODES {
+            acc.eval();
+            let replay = |what: &str| json!({"kind": "c07-huge", "set": S::SET, "mode": mode.name(), "ctx_len": n, "ctx": "all-zero", "what": what});
+            match sign_replay::<S>(&sk, &m, cx, mode, &[7u8; 32]) {
+                Err(pi) => panic_violation(acc, "C07", "sign", "ctxlen-huge", &pi, replay("sign")),
+                Ok((Ok(_), _)) => acc.violation(&format!("C07|sign-accepted-long-ctx|{}|{}", p.name, mode.name()), format!("signing with a {n}-byte context returned a signature"), replay("sign")),
+                Ok((Err(_), _)) => {
+                    acc.count("huge_ctx_sign_err", 1);
+                    acc.nontrivial(digest64(&[&[S::SET as u8], mode.name().as_bytes(), &(n as u64).to_le_bytes(), b"huge-err"]));
+                }
+            }
+            match guarded(|| S::verify(&pk, &m, &vec![0u8; p.sig_len], cx, mode)) {
+                Ok(false) => acc.count("huge_ctx_verify_false", 1),
+                Ok(true) => acc.violation(&format!("C07|long-ctx-verify-true|{}", p.name), format!("verify returned true with a {n}-byte context"), replay("verify-zero-sig")),
+                Err(pi) => panic_violation(acc, "C07", "verify", "ctxlen-huge", &pi, replay("verify-zero-sig")),
+            }
+        }
+    }
+    // replay of a short-context signature with a 2^32-byte longer context (pure mode): the honest
+    // encoding of (ctx = 0^r, M = 0^(2^32) || 0^24) equals the wrapped-length encoding of
+    // (ctx = 0^(2^32 + r), M = 0^24). One set per run in quick (4 GiB are hashed once), all in thorough.
+    if ctx.thorough() || !ctx.checked_build() && (ctx.seed % 3) as usize == [44u32, 65, 87].iter().position(|&s| s == p.set).unwrap_or(0) {
+        for rr in [0usize, 255] {
+            let m_long = z.get((1usize << 32) + 24);
+            if let Ok((Ok(sig), _)) = sign_replay::<S>(&sk, m_long, z.get(rr), Mode::Pure, &[9u8; 32]) {
+                acc.eval();
+                let n = (1usize << 32) + rr;
+                let replay = json!({"kind": "c07-huge", "set": S::SET, "mode": "pure", "ctx_len": n, "ctx": "all-zero", "what": "alias-signer"});
+                match guarded(|| S::verify(&pk, &m, &sig, z.get(n), Mode::Pure)) {
+                    Ok(false) => {
+                        acc.count("huge_alias_via_signer_rejected", 1);
+                        acc.nontrivial(digest64(&[&[S::SET as u8], b"huge-alias", &(n as u64).to_le_bytes()]));
+                    }
+                    Ok(true) => acc.violation(&format!("C07|alias-accepted|{}|wrapped-via-signer", p.name), format!("signature for ({rr}-byte ctx, 0^(2^32)||M) verifies for the {n}-byte context and M: length reduced modulo 2^32"), replay),
+                    Err(pi) => panic_violation(acc, "C07", "verify", "ctxlen-huge", &pi, replay),
+                }
+            } else {
+                acc.inconclusive(format!("{}: could not sign the 4 GiB message for the alias probe", p.name));
+            }
+            if !ctx.thorough() {
+                break;
+            }
+        }
+    }
 }
